@@ -262,6 +262,7 @@ type StrV struct {
 	S     string
 	Len   *IntV
 	Bytes *SliceV // string(b) of a tracked byte slice (for []byte(string(b)) round trips)
+	Text  *textMeaning // abs_text.go: the string is the decimal / hex rendering of a value
 }
 
 type IfaceV struct {
